@@ -80,6 +80,7 @@ LATER = {
  "C11": " Every answer of the batch query is judged like a single answer; a fifth of the multisets receive their tail as an encoding decoded after a query.",
  "C12": " Identity conversions (equal mapping, scale 1) are part of the histories.",
  "C13": " Non-positive Reweight factors are also sent to the sketch's two stores; merges of very coarse mappings (bases 1e3..1e15) must be refused; whether a merge is refused must not depend on merges accepted before (near-twin chains).",
+ "C14": " The race-detector pass covers more than copies: receiver and argument of a merge into an empty sketch, source and result of an identity conversion, a sketch and the one decoded from its encoding, a sketch and the one rebuilt from its protobuf message (message re-read meanwhile).",
  "C15": " The store walk also consumes kept protobuf messages several times and decodes hand-written blocks.",
  "C16": " 70% of the sketches are queried right before the call, 30% receive a refused Reweight first, 60% go on afterwards (reweighted sketch and scaled-adds twin absorb the same further additions and are compared again); sparse-store exact sketches are pushed beyond the float64 range by the reweighting (sum must be the infinity of its sign).",
  "C17": " Half of the results are queried through the batch entry point.",
